@@ -212,6 +212,11 @@ def smAdmit (s : SmIdeal) : SmOp → SmAns → Option SmIdeal
   | .delete i, a => if a.st = .ok then some { s with live := s.live.filter (fun e => e.1 != i) } else none
   | .getmin, a => if a.st = .ok ∧ smMinOk s.live a.num then some s else none
 
+/-- the caller's side of the contract: stored pointers are real (non-NULL) pointers -/
+def smContract : SmOp → Prop
+  | .add p => 0 < p ∧ p < 2^64
+  | _ => True
+
 def smAdmitAll : SmIdeal → List (SmOp × SmAns) → Option SmIdeal
   | s, [] => some s
   | s, (op, a) :: rest => match smAdmit s op a with
